@@ -21,7 +21,7 @@ EXPLANATION = ("Compositional translation typing with the LF engine: every posit
 ASSUMPTIONS = ["cached geometric state (face normals, areas, volumes, curvatures, node normals) is treated as translation invariant (it is computed from coordinate differences: C02/C12)",
                "scalar locals are typed compositionally: a local is weight 0 iff its own definition is"]
 
-POS_RE = re.compile(r"(\.pos_\.d[xyz]_$|face_aabb_lst_\[.*\]$|(^|\.)(global_)?m(in|ax)_[xyz]_$|centroid_\.d[xyz]_$|\.position_\.d[xyz]_$)")
+POS_RE = re.compile(r"(\.pos_\.d[xyz]_$|face_aabb_lst_\[.*\]$|(^|\.)(global_)?m(in|ax)_[xyz]_$|centroid_\.d[xyz]_$|compute_centroid\(\)\.d[xyz]_$|\.position_\.d[xyz]_$)")
 
 
 def axis_of(name):
@@ -109,6 +109,8 @@ class Weights:
 def declare(rep):
     rep.rule("C14.forces", "every add_force argument (cell routines + configured contact model) has translation weight 0", floor=14)
     rep.rule("C14.kernel", "the kernel's distance and coordinates have weight 0", floor=7)
+    rep.rule("C14.callees", "the geometric helpers whose results enter the forces as opaque values (cell::get_angle_gradient) return, on every return path, vectors of weight 0 when their point arguments are translated together", floor=3)
+    rep.rule("C14.axis-moments", "every term accumulated into the second moments that give the division axis (cell::get_cell_longest_axis) has weight 0, and the mean subtracted is the mean of the same points", floor=6)
     rep.rule("C14.displacements", "integrator displacements have weight 0; points written by pos_.reset have weight 1", floor=1)
     rep.rule("C14.new-nodes", "the node added by split_edge / merge_edge has weight 1", floor=2)
     rep.rule("C14.decisions", "both operands of every position-dependent comparison in the refiner, contact phases, box test and divider have equal weights", floor=10)
@@ -180,11 +182,74 @@ def run(rep, prog, tier):
                 rep.violation("C14.kernel", prog, kfn, r, "kernel return #%d depends on the absolute position" % (i + 1), "return #%d of the distance kernel changes under a common translation of point and triangle (%s)" % (i + 1, getattr(W, "reason", ws)))
         except S.Decline as e:
             raise AnalysisBroken("%s: %s" % (prog.loc(kfn, r), e))
+    callees(rep, prog)
+    axis_moments(rep, prog)
+    from . import c12
+    c12.orientation_order(rep, prog, rule="C14.decisions")
     displacements(rep, prog, cm)
     new_nodes(rep, prog)
     decisions(rep, prog, cm)
     grid(rep, prog, cm)
     extrema_sentinels(rep, prog)
+
+
+def axis_moments(rep, prog):
+    rule = "C14.axis-moments"
+    fn = prog.fn("cell::get_cell_longest_axis")
+    fi = prog.index(fn)
+    n_acc = 0
+    for n in walk(fn["body"]):
+        if n.get("k") == "CompoundAssignOperator" and n.get("op") == "+=" and fi.enclosing(n, ("CXXForRangeStmt", "ForStmt")) is not None and "double" in (n.get("t") or ""):
+            tgt = strip(n["c"][0])
+            if tgt.get("k") != "DeclRefExpr":
+                continue
+            n_acc += 1
+            try:
+                ev = S.SymEval(prog, fn, lazy_scalars=True)
+                e = sp.sympify(ev.ev(n["c"][1]))
+                W = Weights(ev)
+                w = W.weights(e)
+            except S.Decline as ex:
+                raise AnalysisBroken("%s: %s" % (prog.loc(fn, n), ex))
+            if w == (0, 0, 0):
+                rep.ok(rule, prog, fn, n, "%s: weight 0" % short(n, 70))
+            else:
+                rep.violation(rule, prog, fn, n, "second moment taken about the origin instead of the cell",
+                              "%s accumulates a term that changes when the tissue is translated (%s): the covariance, and with it the division axis, depends on where the cell lies (products of absolute coordinates also lose "
+                              "all significant digits far from the origin)" % (short(n, 80), getattr(W, "reason", w)))
+    if n_acc < 6:
+        raise AnalysisBroken("get_cell_longest_axis: %d accumulations found" % n_acc)
+
+
+GEOMETRIC_CALLEES = ["cell::get_angle_gradient"]     # take points, must return translation-invariant vectors
+
+
+def callees(rep, prog):
+    for qn in GEOMETRIC_CALLEES:
+        fn = prog.fn(qn)
+        rets = [n for n in walk(fn["body"]) if n.get("k") == "ReturnStmt" and isinstance(n.get("value"), dict)]
+        if not rets:
+            raise AnalysisBroken("%s: no return statement" % qn)
+        for i, r in enumerate(rets):
+            try:
+                ev = S.SymEval(prog, fn, lazy_scalars=True)
+                v = ev.ev(r["value"])
+                items = v.items if isinstance(v, S.Tup) else [v]
+                W = Weights(ev, extra_pos={p["name"] for p in fn["params"]})
+                bad = None
+                for k, it in enumerate(items):
+                    ok, why = check_vector(W, vec(ev, it), 0)
+                    if not ok:
+                        bad = (k, why)
+                        break
+                if bad is None:
+                    rep.ok("C14.callees", prog, fn, r, "%s return #%d: %d vector(s) of weight 0" % (qn, i + 1, len(items)))
+                else:
+                    rep.violation("C14.callees", prog, fn, r, "%s depends on the absolute position of its arguments" % qn.split("::")[-1],
+                                  "return #%d of %s: element %d of the returned tuple changes when the points passed in are translated together (%s): the regularisation force built from it is no longer a function of coordinate differences"
+                                  % (i + 1, qn, bad[0] + 1, bad[1]))
+            except S.Decline as e:
+                raise AnalysisBroken("%s: %s" % (prog.loc(fn, r), e))
 
 
 def displacements(rep, prog, cm):
